@@ -277,6 +277,7 @@ class Executor:
 
     def _index_defs(self):
         self.defs = {}      # key -> [Fn]
+        self.by_last = {}   # last path segment -> [Fn]
         self.closures = {}  # '{closure@pos}' -> Fn ; '{async block@pos}' -> Fn
         self.coro_of = {}   # constructor fn name -> Fn (the ::{closure#0} body of an async fn)
         for fn in self.order:
@@ -298,6 +299,7 @@ class Executor:
                     self.coro_of[name[:-len('::{closure#0}')]] = fn
             for key in self._def_keys(name):
                 self.defs.setdefault(key, []).append(fn)
+            self.by_last.setdefault(self._segments(name)[-1], []).append(fn)
 
     def _def_keys(self, name):
         """canonical lookup keys of a definition name"""
@@ -1702,6 +1704,24 @@ class Executor:
             return cands[0]
         return None
 
+    def find_def_by_self(self, selfty, meth, nargs, dty):
+        """methods generated by derives (typed-builder ...) are named after the derive position; find them
+        by method name + type of the receiver / of the result"""
+        sn = simple_name(selfty)
+        cands = []
+        for f in self.by_last.get(meth, ()):
+            if len(f.args) != nargs:
+                continue
+            if any('_Error_Repeated_field_' in t for _, t in f.args):
+                continue
+            recv = simple_name(f.args[0][1]) if f.args else simple_name(f.ret)
+            if recv == sn or (not f.args and simple_name(f.ret) == sn):
+                cands.append(f)
+        hs = set(c.text_hash for c in cands)
+        if len(hs) == 1:
+            return cands[0]
+        return None
+
     def is_env_call(self, canon):
         key, selfty, trait, meth, raw = canon
         if trait is None or selfty is None:
@@ -1785,6 +1805,14 @@ class Executor:
                 fr.idx = 0
                 self.new_frame(st, d, args, dest=dest, ret_bb=target)
                 return None
+            if d is None and selfty and trait is None:
+                d = self.find_def_by_self(selfty, meth, len(args), dty)
+                if d is not None:
+                    self.stats['calls_inlined'] += 1
+                    fr.bb = target if target is not None else fr.bb
+                    fr.idx = 0
+                    self.new_frame(st, d, args, dest=dest, ret_bb=target)
+                    return None
             # Future::poll of a coroutine value / closure call traits
             r = self.call_special(st, canon, args, dest, target, dty)
             if r is not NOTFOUND:
@@ -1821,7 +1849,11 @@ class Executor:
         nm = 'ev%d' % len(st.trace)
         snap = tuple(self.snapshot(st, a) for a in args)
         st.trace.append(Event('env', key, snap, nm, extra=dty))
-        ret(st, self.mk_sym(dty, nm))
+        v = self.mk_sym(dty, nm)
+        hook = self.cfg.get('env_assume')
+        if hook is not None:
+            hook(self, st, key, v, dty)
+        ret(st, v)
         return None
 
     def snapshot(self, st, v, depth=0):
